@@ -174,7 +174,7 @@ def run(tier: str) -> int:
     finally:
         cleanup_gen()
     cells = []
-    caps = dict(filter0=10 ** 9, filter1=9000 if q else 10 ** 9, filter2=7000 if q else 10 ** 9, tagarg=9000 if q else 10 ** 9, source=10 ** 9)
+    caps = dict(filter0=10 ** 9, filter1=9000 if q else 10 ** 9, filter2=7000 if q else 45000, tagarg=9000 if q else 10 ** 9, source=10 ** 9 if q else 90000)
     for p, r in zip(parts, rs):
         ck.tlc("ExitCells " + p, r)
         cs = r.emitted
